@@ -5,7 +5,7 @@
    modelling assumption; everything after the encoder - offsets, label table, fixup chains, cross-section resolution - is C03's model,
    for which AsmOrder.order_irrelevant is proved. *)
 From Coq Require Import ZArith List Bool Lia Arith Permutation.
-From Verif Require Import Labels.LabelsModel Builder.BuilderModel Builder.BuilderProofs Builder.BuilderGrouping Builder.AsmOrder Builder.AsmOrderAny.
+From Verif Require Import Labels.LabelsModel Builder.BuilderModel Builder.BuilderProofs Builder.BuilderGrouping Builder.AsmOrder Builder.AsmOrderAny Builder.AsmOrderEffect Builder.AsmOrderBytes Builder.AsmOrderPerm.
 Import ListNotations.
 Local Open Scope Z_scope.
 
@@ -127,6 +127,61 @@ Proof.
   { intros x Hx. rewrite trace_replay in Hx. apply node_ecall_section in Hx. apply HS in Hx. destruct Hx as [->|Hx]; [lia|apply HV; exact Hx]. }
   apply order_irrelevant_any; try assumption.
   - intros k. symmetry. apply (same_projections ns); assumption.
+  - apply (tags_tprog ns); [lia|exact HV].
+  - apply (tags_tprog ns); [lia|exact HV2].
+Qed.
+
+(* ... and as an equation on the relocated bytes (AsmOrderBytes.patched_bytes_equal, unpatched_entries_equal): what the Builder serializes
+   and the calls assembled directly hold, after the intra-section delta patches, EQUAL bytes and EQUAL remaining relocation entries in every
+   section - for every encoder of the shape above, any label deltas *)
+Theorem same_patched_bytes : forall nl ns offs rs cs,
+  Forall (fun c => is_emitter_call c = true) cs -> all_ok (init_state rs) cs = true ->
+  let direct := program (trace cs) in
+  let serialized := program (trace (replay (BuilderModel.run (init_state rs) cs))) in
+  secs_valid ns (trace cs) -> NoDup (bound_labels direct) ->
+  let s0 := LabelsModel.run init (prelude nl ns) in
+  no_misfit s0 direct -> no_misfit s0 serialized -> nowrap nl ns (res_from s0 direct) offs ->
+  let L := labels (LabelsModel.run init ((prelude nl ns ++ expand direct) ++ [OResolve offs])) in
+  forall k, (k < S ns)%nat ->
+    let A1 := lfold nl k (proj k (res_from s0 direct)) in let A2 := lfold nl k (proj k (res_from s0 serialized)) in
+    apply_sites L (l_rels A1) (gbytes L offs (l_items A1)) = apply_sites L (l_rels A2) (gbytes L offs (l_items A2)) /\
+    filter (inertb L) (l_rels A1) = filter (inertb L) (l_rels A2).
+Proof.
+  intros nl ns offs rs cs HE HOK direct serialized HV HN s0 M1 M2 W1 L k Hk A1 A2.
+  destruct (replay_is_grouping rs cs HE HOK) as (HP & HS & _).
+  assert (HV2 : secs_valid ns (trace (replay (BuilderModel.run (init_state rs) cs)))).
+  { intros x Hx. rewrite trace_replay in Hx. apply node_ecall_section in Hx. apply HS in Hx. destruct Hx as [->|Hx]; [lia|apply HV; exact Hx]. }
+  assert (HPk : forall j, proj j direct = proj j serialized) by (intros j; symmetry; apply (same_projections ns); assumption).
+  assert (T1 : tags_ok ns direct) by (apply (tags_tprog ns); [lia|exact HV]).
+  assert (T2 : tags_ok ns serialized) by (apply (tags_tprog ns); [lia|exact HV2]).
+  split.
+  - exact (proj1 (patched_bytes_equal nl ns direct serialized offs HPk T1 T2 HN M1 M2 W1 k Hk)).
+  - exact (unpatched_entries_equal nl ns direct serialized offs HPk T1 T2 HN M1 M2 W1 k Hk).
+Qed.
+
+(* ... stated on the two machine states alone (AsmOrderPerm.machine_relocated_bytes_equal): same label table, and every section's bytes patched
+   at the machine's own entries of that section are EQUAL *)
+Theorem same_relocated_bytes_machine : forall nl ns offs rs cs,
+  Forall (fun c => is_emitter_call c = true) cs -> all_ok (init_state rs) cs = true ->
+  let direct := program (trace cs) in
+  let serialized := program (trace (replay (BuilderModel.run (init_state rs) cs))) in
+  secs_valid ns (trace cs) -> NoDup (bound_labels direct) ->
+  let s0 := LabelsModel.run init (prelude nl ns) in
+  no_misfit s0 direct -> no_misfit s0 serialized -> nowrap nl ns (res_from s0 direct) offs ->
+  let s1 := LabelsModel.run init ((prelude nl ns ++ expand direct) ++ [OResolve offs]) in
+  let s2 := LabelsModel.run init ((prelude nl ns ++ expand serialized) ++ [OResolve offs]) in
+  let L := labels s1 in
+  labels s2 = L /\
+  forall k, (k < S ns)%nat ->
+    apply_sites L (filter (fun rg => Nat.eqb (rg_sec rg) k) (map rghost_of (relocs s1))) (gbytes L offs (map (gi (refs s1)) (s_items (nsec s1 k)))) =
+    apply_sites L (filter (fun rg => Nat.eqb (rg_sec rg) k) (map rghost_of (relocs s2))) (gbytes L offs (map (gi (refs s2)) (s_items (nsec s2 k)))).
+Proof.
+  intros nl ns offs rs cs HE HOK direct serialized HV HN s0 M1 M2 W1.
+  destruct (replay_is_grouping rs cs HE HOK) as (HP & HS & _).
+  assert (HV2 : secs_valid ns (trace (replay (BuilderModel.run (init_state rs) cs)))).
+  { intros x Hx. rewrite trace_replay in Hx. apply node_ecall_section in Hx. apply HS in Hx. destruct Hx as [->|Hx]; [lia|apply HV; exact Hx]. }
+  apply machine_relocated_bytes_equal; try assumption.
+  - intros j. symmetry. apply (same_projections ns); assumption.
   - apply (tags_tprog ns); [lia|exact HV].
   - apply (tags_tprog ns); [lia|exact HV2].
 Qed.
